@@ -1,7 +1,16 @@
 """C01 composition stage: sqfs_serialize_fstree of the working tree (h_img.c) against the extracted
 Img.TreeModel.serialize_fstree (exact: inode table, directory table, root reference, all inode references, id
 table), plus the search oracle: the reader specification Img.TreeModel.read_tree run on the tables the C code
-produced must yield spec_tree of the dumped tree (= theorem tree_roundtrip evaluated on the implementation)."""
+produced must yield spec_tree of the dumped tree (= theorem tree_roundtrip evaluated on the implementation).
+
+Reader leg (Properties_C01.v section 6, coq/ImgReader): the same tree is written as a WHOLE image by the library
+(h_img.c command W: sqfs_super_init, sqfs_serialize_fstree, sqfs_id_table_write, sqfs_super_write) and the file is
+read by (a) the extracted C05 reader model (ReadImage.read_image_c05: super block, id table, full hierarchy;
+reader_driver.ml) and (b) libsquashfs itself inside the harness (sqfs_super_read, sqfs_id_table_read,
+sqfs_dir_reader_get_full_hierarchy).  Both results are compared exactly, as pre-order listings of every field a
+reader reports, with spec_tree of the dumped input tree: (a) = theorem reader_model_reads_written_image /
+reader_model_reads_id_table_and_tree evaluated on the implementation's bytes, (b) = the property itself evaluated
+on the implementation (writer and reader of the library), which decides what a disagreement of (a) means."""
 import os
 import time
 from concurrent.futures import ThreadPoolExecutor
@@ -14,15 +23,18 @@ import img_cases
 RD_BUDGET = dict(quick=14_000_000, thorough=80_000_000)
 
 
-def one_case(h_img, drv, lab, line, budget):
-    """returns dict(label, line, model_in, impl, model, flags, rd, err)"""
-    r = dict(label=lab, line=line, model_in=None, impl=None, model=None, flags="", rd=None, err=None)
-    rc, out, err = run_proc(h_img, [line], timeout=300)
+def one_case(h_img, drv, lab, line, budget, drv_rd=None):
+    """returns dict(label, line, model_in, impl, model, flags, rd, err, c05, c05_flags, spec_l, model_l, real)"""
+    r = dict(label=lab, line=line, model_in=None, impl=None, model=None, flags="", rd=None, err=None,
+             c05=None, c05_flags="", spec_l=None, model_l=None, real=None)
+    lines = [line] + (["W" + line[1:]] if drv_rd and line.startswith("T ") else [])
+    rc, out, err = run_proc(h_img, lines, timeout=300)
     out = [o for o in out if o]
-    if rc != 0 or len(out) != 1 or " | " not in out[0]:
+    if rc != 0 or len(out) != len(lines) or " | " not in out[0]:
         r["err"] = "harness rc=%s: %s" % (rc, err[-2000:])
         return r
     mi, impl = out[0].split(" | ", 1)
+    whole = out[1].split(" | ") if len(out) > 1 else []
     r["model_in"], r["impl"] = mi, impl
     if mi == "img -":
         r["model"] = "SKIP"
@@ -44,31 +56,61 @@ def one_case(h_img, drv, lab, line, budget):
             rc3, rout, rerr = run_proc(drv, [rd_in], timeout=300)
             rout = [o for o in rout if o]
             r["rd"] = rout[0] if (rc3 == 0 and rout) else "DRIVER-FAILED rc=%s %s" % (rc3, rerr[-300:])
+    # reader leg: the whole image the library wrote, read by the C05 reader model and by libsquashfs
+    if len(whole) == 4 and whole[0] == mi and whole[1].startswith("0 ") and toks[1] in ("0", "1", "3") \
+            and not whole[2].startswith("FINISH-FAILED"):
+        r["real"] = whole[3]
+        rc4, cout, cerr = run_proc(drv_rd, ["c05 " + mi[4:] + " " + whole[2]], timeout=600)
+        cout = [o for o in cout if o]
+        if rc4 != 0 or len(cout) != 1 or cout[0].count(" | ") != 2:
+            r["c05"] = "DRIVER-FAILED rc=%s %s" % (rc4, (cerr or (cout[0] if cout else ""))[-300:])
+        else:
+            v, sl, ml = cout[0].split(" | ")
+            r["c05"], _, r["c05_flags"] = v.partition(" # ")
+            r["spec_l"], r["model_l"] = sl[2:], ml[2:]
+    elif len(whole) >= 3 and whole[1].startswith("0 ") and len(whole) == 4 and whole[2].startswith("FINISH-FAILED"):
+        r["real"] = "E " + whole[2]
     return r
 
 
-def run_cases(h_img, drv, cases, budget, workers=14):
+def run_cases(h_img, drv, cases, budget, workers=14, drv_rd=None):
     with ThreadPoolExecutor(max_workers=workers) as ex:
-        return list(ex.map(lambda c: one_case(h_img, drv, c[0], c[1], budget), cases))
+        return list(ex.map(lambda c: one_case(h_img, drv, c[0], c[1], budget, drv_rd), cases))
 
 
-def stage(ctx, h_img, drv, rnd, quick):
+def stage(ctx, h_img, drv, rnd, quick, drv_rd=None):
     """runs the stage; reports violations through ctx; returns the statistics dict"""
     t0 = time.time()
     cases = img_cases.gen_cases(rnd, quick)
     # big cases first so that the pool drains evenly
     order = sorted(range(len(cases)), key=lambda i: -len(cases[i][1]))
-    res = run_cases(h_img, drv, [cases[i] for i in order], RD_BUDGET["quick" if quick else "thorough"])
+    res = run_cases(h_img, drv, [cases[i] for i in order], RD_BUDGET["quick" if quick else "thorough"], drv_rd=drv_rd)
     st = evaluate(ctx, res)
     st["wall_s"] = round(time.time() - t0, 1)
     return st
 
 
+def _first_diff(a, b):
+    n = min(len(a), len(b))
+    for i in range(n):
+        if a[i] != b[i]:
+            return i
+    return n
+
+
+def _around(a, b):
+    i = _first_diff(a, b)
+    lo = max(0, a.rfind(" ", 0, max(0, i - 40)))
+    return a[lo:i + 60], b[lo:i + 60]
+
+
 def evaluate(ctx, res):
     st = dict(cases=len(res), exact_equal=0, rc0=0, refused=0, build_failed=0, representable=0, trace_fits=0,
               impl_readback_ok=0, impl_readback_skipped=0, inodes=0, max_inodes=0,
-              itbl_blocks_gt1=0, dtbl_blocks_gt1=0, compressed_blocks=0, shapes={}, toymode={})
+              itbl_blocks_gt1=0, dtbl_blocks_gt1=0, compressed_blocks=0, shapes={}, toymode={},
+              whole_images=0, c05_model_ok=0, c05_hyps=0, libread_ok=0, c05_nodes=0)
     tie_bad, prop_bad = [], []
+    c05_bad, lib_bad = [], []
     for r in res:
         lab = r["label"].split("-")[0]
         st["shapes"][lab] = st["shapes"].get(lab, 0) + 1
@@ -106,6 +148,45 @@ def evaluate(ctx, res):
             st["impl_readback_ok"] += 1
         elif "r1" in f and "f1" in f:
             prop_bad.append(r)
+        # reader leg
+        if r["c05"] is not None:
+            st["whole_images"] += 1
+            hyps = r["c05_flags"] == "r1 f1 a1"
+            st["c05_hyps"] += hyps
+            lib_ok = r["real"] is not None and r["real"].startswith("R ") and r["real"][2:] == r["spec_l"]
+            st["libread_ok"] += lib_ok
+            if r["c05"].startswith("OK ") and r["model_l"] == r["spec_l"]:
+                st["c05_model_ok"] += 1
+                st["c05_nodes"] += int(r["c05"].split(" ")[1])
+            elif hyps:
+                c05_bad.append(r)
+            if hyps and not lib_ok:
+                lib_bad.append(r)
+    for r in lib_bad[:2]:
+        real = r["real"] or "-"
+        what = ("libsquashfs fails with %s" % real[:60]) if not real.startswith("R ") else \
+            ("first difference at listing offset %d: read %r, packed %r"
+             % (_first_diff(real[2:], r["spec_l"]), _around(real[2:], r["spec_l"])[0], _around(real[2:], r["spec_l"])[1]))
+        ctx.violation("img-libread:" + ("error" if not real.startswith("R ") else "mismatch"),
+                      "what sqfs_serialize_fstree + sqfs_id_table_write + sqfs_super_write wrote does not read back through "
+                      "sqfs_dir_reader_get_full_hierarchy as the tree that was packed (%s tree, %s inodes): %s; the C05 reader "
+                      "model on the same bytes says %s"
+                      % (r["label"], r["model_in"].split(" ")[3], what, (r["c05"] or "-")[:80]),
+                      dict(kind="img-lines", lines=[r["line"]], real=real[:3000], expected=(r["spec_l"] or "")[:3000],
+                           model_reader=(r["c05"] or "")[:300]))
+    if c05_bad:
+        r = c05_bad[0]
+        concrete = bool(lib_bad or prop_bad)
+        ctx.violation("tie:c05-reader-on-image",
+                      "theorem reader_model_reads_written_image does not hold of the implementation's bytes: the C05 reader model "
+                      "run on the image the library wrote answers %s on %d of %d images whose tree meets the hypotheses (first: %s tree, "
+                      "%s inodes; %s)"
+                      % (r["c05"][:120], len(c05_bad), st["c05_hyps"], r["label"], r["model_in"].split(" ")[3],
+                         "libsquashfs / the reader specification fail on the same bytes, see other violation" if concrete else
+                         "libsquashfs itself reads the packed tree back from the same bytes: no property failure found"),
+                      dict(kind="img-lines", lines=[r["line"]], model_reader=r["c05"][:300],
+                           correspondence="real writer bytes -> ReadImage.read_image_c05 = spec_tree (Properties_C01.v section 6)"),
+                      no_input=True)
     for r in prop_bad[:2]:
         ctx.violation("img-readback:" + r["rd"].split(" ")[0],
                       "sqfs_serialize_fstree output does not read back as the tree that was serialized (%s tree, %s inodes): %s"
